@@ -14,6 +14,10 @@ def lib_source(lib, layout=0):
     head = "(define-library (%s)\n  (import (scheme base)%s)" % (lib["name"], imps)
     if lib.get("bare"):
         head = "(define-library (%s)" % lib["name"]          # no import declaration at all
+    if lib.get("solo"):
+        # the library's own imports as a declaration of their own, ahead of (scheme base) (which this body does not need:
+        # layout 2 leaves it out)
+        head = "(define-library (%s)\n  (import%s)%s" % (lib["name"], imps, "" if layout == 2 else "\n  (import (scheme base))")
     exp = "\n  (export %s)" % exps
     beg = lambda fs: "\n  (begin\n    %s)" % "\n    ".join(fs)
     if layout == 1 or len(forms) < 2:
@@ -79,6 +83,10 @@ def run(ctx):
     require_clean(r, cfg)
     ctx.add_tlc(r, cfg + " (OneInstance, ExportedOnly, LibraryFramesAreRoots, SharedState)")
     vecs = r.vecs
+    r = run_tlc("MCLibs.tla", "MCLibs_patch.cfg", ctx.dir, workers=4, timeout=3000)
+    require_clean(r, "MCLibs_patch.cfg")
+    ctx.add_tlc(r, "MCLibs_patch.cfg (two libraries importing (counter) alone, one of which assigns imported names at load time and on request)")
+    vecs += r.vecs
     nsim = 12 if tier == "quick" else 400
 
     def sim(seed):
